@@ -1,17 +1,34 @@
 """C02 - literal values parse to exactly what Python evaluates them to.
 
-Engine X through the tokenizer seam: the value part of `vw.lit.p = <value>` is a
-symbolic token stream of at most N tokens over a vocabulary; the real
-statement/value parser, bind_parameter and query_parameter run on it.
-Oracle: vf.spec.literal (the grammar G of the property) + ast.literal_eval.
+Engine X through the tokenizer seam: the value part of a binding is a symbolic
+token stream of at most N tokens over a vocabulary; the real statement/value
+parser, bind_parameter and query_parameter run on it.  The binding is written in
+one of three statement positions (`pos`): flat `vw.lit.p = <value>`, member of a
+block `vw.lit:\\n  p = <value>`, macro definition `m = <value>`.
+Oracle: vf.spec.literal (the grammar G of the property) + ast.literal_eval,
+compared type- and sign-sensitively (repr for float/complex: -0.0, -0j, inf).
+
+References (`@name`, `@name()`) and macros (`%name`) are legal Gin values that
+are NOT literals; the property is silent about them.  The reference grammar is
+therefore extended (class PX) so that a value MAY contain them wherever a value
+may stand: a stream containing '@'/'%' may be rejected or accepted, but if it is
+accepted it must be a sentence of the extended grammar with every literal part
+equal to Python's (so `-@y`, `[-%m, 1]`, `1 @y`, `@y 1` accepted is a violation).
 """
 import ast
 
 import gin
+from gin import config as _gc
 from vf import rt
 from vf import tokseam
 from vf import world
 from vf.spec import literal
+
+
+@gin.configurable('y', module='vw02')
+def _probe_y():
+  return 7
+
 
 END, ENDC = ('END', ''), ('ENDC', '# tail')
 VOC_R = [END, ENDC, ('OP', '['), ('OP', ']'), ('OP', '('), ('OP', ')'), ('OP', '{'), ('OP', '}'),
@@ -26,26 +43,157 @@ VOC_F = VOC_R + [('NUMBER', '0x1F'), ('NUMBER', '1_0'), ('NUMBER', '1e3'), ('NUM
 # structural vocabulary for deeper nesting (N = 7): brackets, comma, one number, one string
 VOC_S = [END, ('OP', '('), ('OP', ')'), ('OP', '['), ('OP', ']'), ('OP', ','), ('NUMBER', '1')]
 VOC_T = VOC_S + [('OP', '{'), ('OP', '}'), ('OP', ':'), ('STRING', "'a'")]
-VOCS = [VOC_R, VOC_F, VOC_S, VOC_T]
-PREFIX = [('NAME', 'vw'), ('OP', '.'), ('NAME', 'lit'), ('OP', '.'), ('NAME', 'p'), ('OP', '=')]
-PREFIX_GAPS = [0, 0, 0, 0, 0, 1]
+# other value kinds and junk: references, macros, characters that are no Python token ('$' as the 3.12
+# tokenizer reports it (OP) and as the pure-Python tokenizer of <= 3.11 reported it (ERRORTOKEN ' ' +
+# ERRORTOKEN '$')), text on which the tokenizer itself raises (unterminated string, bad hex literal)
+VOC_X = [END, ENDC, ('OP', '-'), ('OP', '@'), ('OP', '%'), ('NAME', 'y'), ('OP', '('), ('OP', ')'),
+         ('OP', '['), ('OP', ']'), ('OP', ','), ('NUMBER', '1'), ('OP', '$'), ('ERR', '$'),
+         ('TOKERR', "'abc"), ('TOKERR', '0xG')]
+VOC_XT = VOC_X + [('OP', '{'), ('OP', '}'), ('OP', ':'), ('STRING', "'a'"), ('NL', '\n')]
+# negative numbers inside containers and as dict keys / values
+VOC_N = [END, ('OP', '['), ('OP', ']'), ('OP', '{'), ('OP', '}'), ('OP', ':'), ('OP', ','), ('OP', '-'),
+         ('NUMBER', '1')]
+# line breaks and comments between the pieces of one scalar / around separators, inside brackets
+VOC_L = [END, ('OP', '['), ('OP', ']'), ('OP', ','), ('OP', '-'), ('NUMBER', '1'), ('STRING', "'a'"),
+         ('NL', '\n'), ('COMMENT', '# c')]
+VOC_LT = VOC_L + [('OP', '('), ('OP', ')')]
+VOC_LD = [END, ('OP', '{'), ('OP', '}'), ('OP', ':'), ('OP', ','), ('OP', '-'), ('NUMBER', '1'), ('STRING', "'a'"),
+          ('NL', '\n'), ('COMMENT', '# c')]
+# numerics whose sign / magnitude an '==' comparison cannot see, and leading-zero forms (legal: 09.5 00e1
+# 09j 0 00; not Python: 09)
+VOC_Z = [END, ('OP', '-'), ('OP', '('), ('OP', ')'), ('NUMBER', '0.0'), ('NUMBER', '0j'), ('NUMBER', '1e400'),
+         ('NUMBER', '0'), ('NUMBER', '09.5'), ('NUMBER', '00e1'), ('NUMBER', '09j'), ('NUMBER', '09'),
+         ('OP', '+'), ('OP', ',')]
+# dict with repeated / equal-but-differently-typed keys
+VOC_D = [END, ('OP', '{'), ('OP', '}'), ('OP', ':'), ('OP', ','), ('NUMBER', '1'), ('STRING', "'a'"),
+         ('NAME', 'True'), ('NUMBER', '1.0')]
+VOCS = [VOC_R, VOC_F, VOC_S, VOC_T, VOC_X, VOC_XT, VOC_N, VOC_L, VOC_LT, VOC_Z, VOC_D, VOC_LD]
+I_X, I_XT, I_N, I_L, I_LT, I_Z, I_D, I_LD = 4, 5, 6, 7, 8, 9, 10, 11
+
+# statement positions: (token, string, gap before it, text of the physical line) ... up to and including '='
+HEADS = [
+    [('NAME', 'vw', 0, 'vw.lit.p = ...\n'), ('OP', '.', 0, 'vw.lit.p = ...\n'), ('NAME', 'lit', 0, 'vw.lit.p = ...\n'),
+     ('OP', '.', 0, 'vw.lit.p = ...\n'), ('NAME', 'p', 0, 'vw.lit.p = ...\n'), ('OP', '=', 1, 'vw.lit.p = ...\n')],
+    [('NAME', 'vw', 0, 'vw.lit:\n'), ('OP', '.', 0, 'vw.lit:\n'), ('NAME', 'lit', 0, 'vw.lit:\n'),
+     ('OP', ':', 0, 'vw.lit:\n'), ('NEWLINE', '\n', 0, None), ('INDENT', '  ', 0, '  p = ...\n'),
+     ('NAME', 'p', 0, '  p = ...\n'), ('OP', '=', 1, '  p = ...\n')],
+    [('NAME', 'm', 0, 'm = ...\n'), ('OP', '=', 1, 'm = ...\n')],
+]
+QUERY = ['vw.lit.p', 'vw.lit.p', 'm/gin.macro.value']
+NPOS = len(HEADS)
 
 
-def c02_tokens(nk: int, n: int, voc: int, k0: int, k1: int, k2: int, k3: int, k4: int, k5: int,
-               k6: int, k7: int) -> bool:
+class Ref:
+  """What '@' NAME ['(' ')'] or '%' NAME stands for in the extended reference grammar."""
+
+  def __init__(self, sigil, name, evaluate):
+    self.key = (sigil, name, evaluate)
+
+  def __eq__(self, other):
+    return isinstance(other, Ref) and self.key == other.key
+
+  def __hash__(self):
+    return hash(self.key)
+
+  def __repr__(self):
+    return 'Ref%r' % (self.key,)
+
+
+class PX(literal.P):
+  """literal.P (the grammar G of the property, unchanged) + references and macros as values."""
+
+  def value(self):
+    typ, s = self.peek()
+    if typ == 'OP' and s in ('@', '%'):
+      self.take()
+      t2, name = self.peek()
+      if t2 != 'NAME':
+        raise literal.Dead()
+      self.take()
+      evaluate = s == '%'
+      if s == '@' and self.i < len(self.t) and self.t[self.i] == ('OP', '('):
+        self.take()
+        t3 = self.peek()
+        if t3 != ('OP', ')'):
+          raise literal.Dead()
+        self.take()
+        evaluate = True
+      return Ref(s, name, evaluate)
+    return literal.P.value(self)
+
+
+def classify(tokens):
+  """literal.classify over the extended grammar (identical on streams without '@' / '%')."""
+  p = PX(list(tokens))
+  try:
+    v = p.value()
+  except literal.NeedMore:
+    return ('viable', None)
+  except literal.Dead:
+    return ('dead', None)
+  except literal.Unhashable:
+    return ('typeerror', None)
+  if p.i < len(tokens):
+    return ('dead', None)
+  return ('accept', v)
+
+
+def same_value(a, b):
+  """literal.same_value (equal value AND equal type, recursively) made sign-sensitive: float and complex
+  are compared by repr (-0.0 / 0.0, -0j, inf).  A Ref in `b` stands for any ConfigurableReference."""
+  if isinstance(b, Ref):
+    return isinstance(a, _gc.ConfigurableReference)
+  if type(a) is not type(b):
+    return False
+  if isinstance(a, (list, tuple)):
+    return len(a) == len(b) and all(same_value(x, y) for x, y in zip(a, b))
+  if isinstance(a, dict):
+    if len(a) != len(b):
+      return False
+    free = list(b)
+    for k1, v1 in a.items():       # dict equality does not depend on insertion order
+      match = [k2 for k2 in free if same_value(k1, k2) and same_value(v1, b[k2])]
+      if not match:
+        return False
+      free.remove(match[0])
+    return True
+  if isinstance(a, (float, complex)):
+    return repr(a) == repr(b)
+  return a == b
+
+
+def _same_but_key_identity(a, b):
+  """same_value, except that of two equal dict keys of different type (1 / True / 1.0) either may have survived."""
+  if isinstance(a, dict) and isinstance(b, dict):
+    return len(a) == len(b) and all(k in b and _same_but_key_identity(v, b[k]) for k, v in a.items())
+  if isinstance(a, (list, tuple)) and type(a) is type(b):
+    return len(a) == len(b) and all(_same_but_key_identity(x, y) for x, y in zip(a, b))
+  return same_value(a, b)
+
+
+def _raised_by_crosshair(e):
+  tb, last = e.__traceback__, None
+  while tb is not None:
+    tb, last = tb.tb_next, tb
+  return last is not None and '/crosshair/' in last.tb_frame.f_code.co_filename
+
+
+def c02_tokens(nk: int, n: int, voc: int, pos: int, k0: int, k1: int, k2: int, k3: int, k4: int, k5: int,
+               k6: int, k7: int, k8: int) -> bool:
   """
   pre: 0 <= k0 < nk and 0 <= k1 < nk and 0 <= k2 < nk and 0 <= k3 < nk and 0 <= k4 < nk and 0 <= k5 < nk
-  pre: 0 <= k6 < nk and 0 <= k7 < nk
+  pre: 0 <= k6 < nk and 0 <= k7 < nk and 0 <= k8 < nk and 0 <= pos < 3
   """
   world.fresh()
   vocab = VOCS[voc]
-  kinds = [k0, k1, k2, k3, k4, k5, k6, k7]
+  kinds = [k0, k1, k2, k3, k4, k5, k6, k7, k8]
+  pos = rt.pick(pos, NPOS)
   w = tokseam.Writer()
-  st = {'pulled': [], 'ended': False, 'eof_error': False, 'finished': False}
+  st = {'pulled': [], 'ended': False, 'eof_error': False, 'finished': False, 'refs': False, 'legacy': False}
 
   def gen():
-    for (typ, s), gap in zip(PREFIX, PREFIX_GAPS):
-      yield w.tok(typ, s, gap=gap, line='vw.lit.p = ...\n')
+    for typ, s, gap, line in HEADS[pos]:
+      yield w.tok(typ, s, gap=gap, line=line)
     depth = 0
     i = 0
     while True:
@@ -69,6 +217,8 @@ def c02_tokens(nk: int, n: int, voc: int, k0: int, k1: int, k2: int, k3: int, k4
           raise tokseam.TokenError('unexpected EOF in multi-line statement', (w.row, 0))
         yield w.tok('NEWLINE', '\n')
         st['finished'] = True
+        if pos == 1:
+          yield w.tok('DEDENT', '')
         yield w.tok('ENDMARKER', '')
         return
       if typ in ('NL', 'COMMENT'):
@@ -78,10 +228,27 @@ def c02_tokens(nk: int, n: int, voc: int, k0: int, k1: int, k2: int, k3: int, k4
         if typ == 'COMMENT':
           yield w.tok('NL', '\n')
         continue
+      if typ == 'TOKERR':
+        # text on which the tokenizer itself raises instead of handing out a token
+        st['pulled'].append((typ, s))
+        w.raw(s)
+        st['ended'] = st['finished'] = st['eof_error'] = True
+        raise tokseam.TokenError('stub: tokenizer error on %s' % s, (w.row, 0))
+      if typ == 'ERR':
+        # a character that is no Python token, as the pure-Python tokenizer (<= 3.11) reports it:
+        # ERRORTOKEN ' ' for the blank before it, then ERRORTOKEN <char>
+        st['pulled'].append((typ, s))
+        st['legacy'] = True
+        if w.cur:
+          yield w.tok('ERRORTOKEN', ' ', gap=0)
+        yield w.tok('ERRORTOKEN', s, gap=0)
+        continue
       if typ == 'OP' and s in '[({':
         depth += 1
       elif typ == 'OP' and s in '])}' and depth > 0:
         depth -= 1
+      if typ == 'OP' and s in '@%':
+        st['refs'] = True
       st['pulled'].append((typ, s))
       yield w.tok(typ, s)
 
@@ -92,7 +259,7 @@ def c02_tokens(nk: int, n: int, voc: int, k0: int, k1: int, k2: int, k3: int, k4
       outcome = 'accepted'
       # (containers built under tracing are CrossHair proxies: make them plain)
       try:
-        value = rt.realize(gin.query_parameter('vw.lit.p'))
+        value = rt.realize(gin.query_parameter(QUERY[pos]))
       except TypeError as e:
         # CrossHair's dict model accepts unhashable keys; making the value plain
         # raises what CPython's dict() raises in the real run
@@ -103,68 +270,137 @@ def c02_tokens(nk: int, n: int, voc: int, k0: int, k1: int, k2: int, k3: int, k4
     except TypeError as e:
       outcome = 'typeerror'
       exc = e
+    except ValueError as e:
+      with rt.native():
+        model = not e.args and _raised_by_crosshair(e)
+      if model:
+        # CrossHair's model of dict() raises a bare ValueError where CPython's raises TypeError (unhashable key)
+        outcome = 'typeerror'
+      elif st['refs']:
+        outcome = 'valueerror'        # (an unknown configurable behind '@': not this property's concern)
+      else:
+        raise
+      exc = e
   with rt.native():
     pulled = st['pulled']
-    verdict, want = literal.classify(pulled)
-    rt.sig(('tokens', tuple(s for _, s in pulled), st['ended']),
+    verdict, want = classify(pulled)
+    rt.sig(('tokens', pos, tuple(s for _, s in pulled), st['ended']),
            nontrivial=verdict in ('accept',) or len(pulled) >= 2)
     text = w.text()
     # ---- validate the stub against the real tokenizer and the real parse ------
     real, real_exc = tokseam.real_tokens(text)
-    if real[:len(w.emitted)] != w.emitted[:len(real)] or (
-        st['finished'] and (len(real) < len(w.emitted) or (real_exc is None) == st['eof_error'])):
+    emitted = tokseam.as_real_312(w.emitted)
+    if real[:len(emitted)] != emitted[:len(real)] or (
+        st['finished'] and (len(real) < len(emitted) or (real_exc is None) == st['eof_error'])):
       raise rt.HarnessError('token stub disagrees with tokenize on %r: %r vs %r (%r)' %
-                            (text, w.emitted, real, real_exc))
-    if st['ended']:
+                            (text, emitted, real, real_exc))
+    if st['ended'] and not st['legacy']:
+      # (a stream with an 'ERR' kind follows the token contract of Python <= 3.11 on purpose: its parse
+      # need not coincide with the parse of the 3.12 tokens of the same text)
       world.fresh()
       try:
         gin.parse_config(text)
-        r_outcome, r_value = 'accepted', gin.query_parameter('vw.lit.p')
+        r_outcome, r_value = 'accepted', gin.query_parameter(QUERY[pos])
       except (SyntaxError, tokseam.TokenError):
         r_outcome, r_value = 'rejected', None
       except TypeError:
         r_outcome, r_value = 'typeerror', None
-      if r_outcome != outcome or (outcome == 'accepted' and not literal.same_value(r_value, value)):
+      except ValueError:
+        if not st['refs']:
+          raise
+        r_outcome, r_value = 'valueerror', None
+      if r_outcome != outcome or (outcome == 'accepted' and not _same_but_key_identity(r_value, value)):
         raise rt.HarnessError('stubbed parse and real parse differ on %r: %r/%r vs %r/%r' %
                               (text, outcome, value, r_outcome, r_value))
+      if outcome == 'accepted':
+        # CrossHair's model of dict keeps the LAST of two equal keys ({1: 'a', True: 'b'} -> {True: 'b'}), CPython
+        # the first ({1: 'b'}): what is judged is the value the untraced parser stored for the same text
+        value = r_value
     # ---- the property --------------------------------------------------------------
     if verdict == 'typeerror':
       return True                    # Python itself raises TypeError: in neither class
     if outcome == 'typeerror':
-      return False
+      return rt.no('TypeError on a stream whose evaluation Python does not refuse')
     if outcome == 'accepted':
-      if verdict != 'accept' or not literal.same_value(value, want):
-        return False
-      # the reference model itself is cross-checked against CPython
-      py = ast.literal_eval(text.split('=', 1)[1].strip())
-      if not literal.same_value(py, want):
-        raise rt.HarnessError('reference grammar disagrees with ast.literal_eval on %r' % text)
+      if verdict != 'accept':
+        return rt.no('accepted text that is not a literal: %r' % (text,))
+      if not same_value(value, want):
+        return rt.no('stored %r, Python evaluates %r to %r' % (value, text, want))
+      if not st['refs']:
+        # the reference model itself is cross-checked against CPython
+        py = ast.literal_eval(text.split('=', 1)[1].strip())
+        if not same_value(py, want):
+          raise rt.HarnessError('reference grammar disagrees with ast.literal_eval on %r' % text)
       return True
+    if st['refs']:
+      return True                    # the property is silent on whether / how references are accepted
     # rejected: only a dead prefix may be rejected before the end; at the end
     # only non-sentences may be rejected
     if st['ended']:
-      return verdict in ('dead', 'viable')
-    return verdict == 'dead'
+      if verdict not in ('dead', 'viable'):
+        return rt.no('rejected the literal %r' % (text,))
+      return True
+    if verdict != 'dead':
+      return rt.no('rejected %r although a literal starts like this' % (text,))
+    return True
 
 
-def _smoke(*ks, n=6, voc=1):
-  ks = list(ks) + [0] * (8 - len(ks))
-  return dict(n=n, voc=voc, nk=len(VOCS[voc]), k0=ks[0], k1=ks[1], k2=ks[2], k3=ks[3], k4=ks[4], k5=ks[5],
-              k6=ks[6], k7=ks[7])
+def _smoke(*ks, n=6, voc=1, pos=0):
+  ks = list(ks) + [0] * (9 - len(ks))
+  return dict(n=n, voc=voc, nk=len(VOCS[voc]), pos=pos, k0=ks[0], k1=ks[1], k2=ks[2], k3=ks[3], k4=ks[4],
+              k5=ks[5], k6=ks[6], k7=ks[7], k8=ks[8])
+
+
+def _sm(voc, text_tokens, n=9, pos=0):
+  """Smoke input from token strings: _sm(4, "- @ y"); NL COMMENT ENDC ERR$ name the kinds without a plain text."""
+  special = {'NL': ('NL', '\n'), 'COMMENT': ('COMMENT', '# c'), 'ENDC': ENDC, 'ERR$': ('ERR', '$')}
+  vocab = VOCS[voc]
+  strings = [s for _, s in vocab]
+  ks = [vocab.index(special[t]) if t in special else strings.index(t) for t in text_tokens.split()]
+  return _smoke(*ks, n=n, voc=voc, pos=pos)
+
+
+_A_ALL = ['gin.config_parser:parse_value', 'gin.config_parser:_maybe_parse_container',
+          'gin.config_parser:_maybe_parse_basic_type', 'gin.config_parser:parse_statement',
+          'gin.config:bind_parameter']
+
+
+def _zeros(frm):
+  return {'k%d' % i: 0 for i in range(frm, 9)}
+
+
+def _pair(name, voc_q, n_q, voc_t, n_t, smoke, bounds, anchors=('gin.config_parser:parse_value',)):
+  """Two entries per vocabulary: almost all paths start with an opening bracket, so `<name>_open` splits those
+  on the first two tokens and `<name>` takes every other first token (one small partition each)."""
+  def tier(voc, n, opening, budget):
+    vocab = VOCS[voc]
+    op = [i for i, (t, s) in enumerate(vocab) if t == 'OP' and s in '[({']
+    rest = [i for i in range(len(vocab)) if i not in op]
+    fixed = dict(n=n, voc=voc, nk=len(vocab), pos=0, **_zeros(n))
+    if opening:
+      return dict(split=dict(k0=op, k1=list(range(len(vocab)))), fixed=fixed, budget_s=budget)
+    return dict(split=dict(k0=rest), fixed=fixed, budget_s=budget)
+  flat = [kw for kw in smoke if VOCS[kw['voc']][kw['k0']][1] not in '[({' or VOCS[kw['voc']][kw['k0']][1] == '']
+  opening = [kw for kw in smoke if kw not in flat]
+  return {
+      name: dict(fn='c02_tokens', anchors=list(anchors), smoke=flat, bounds=bounds + ' [first token: anything but an opening bracket]',
+                 tiers={'quick': tier(voc_q, n_q, False, 100), 'thorough': tier(voc_t, n_t, False, 900)}),
+      name + '_open': dict(fn='c02_tokens', anchors=list(anchors) + ['gin.config_parser:_maybe_parse_container'],
+                           smoke=opening, bounds=bounds + ' [first token: an opening bracket]',
+                           tiers={'quick': tier(voc_q, n_q, True, 100), 'thorough': tier(voc_t, n_t, True, 900)}),
+  }
 
 
 HARNESSES = {
     'c02_tokens': dict(
         fn='c02_tokens',
-        anchors=['gin.config_parser:parse_value', 'gin.config_parser:_maybe_parse_container',
-                 'gin.config_parser:_maybe_parse_basic_type', 'gin.config_parser:parse_statement',
-                 'gin.config:bind_parameter'],
+        anchors=_A_ALL,
         smoke=[_smoke(2, 12, 8, 13, 3), _smoke(14, 13), _smoke(6, 12, 9, 10, 12, 7),
                _smoke(4, 12, 8, 5, 1), _smoke(2, 17, 12, 18, 3)],
         tiers={'quick': dict(split=dict(k0=list(range(21)), k1=list(range(21))),
-                             fixed=dict(n=4, voc=0, nk=21, k4=0, k5=0, k6=0, k7=0), budget_s=100),
+                             fixed=dict(n=4, voc=0, nk=21, pos=0, **_zeros(4)), budget_s=100),
                'thorough': dict(split=dict(k0=list(range(43)), k1=list(range(43))),
-                                fixed=dict(n=4, voc=1, nk=43, k4=0, k5=0, k6=0, k7=0), budget_s=900)},
+                                fixed=dict(n=4, voc=1, nk=43, pos=0, **_zeros(4)), budget_s=900)},
         bounds='value = at most 4 tokens; quick: 21-kind vocabulary (brackets , : - + NUMBER STRING empty-STRING '
                'True NAME NL COMMENT, END, END-with-comment, the near-miss NUMBER 007 and the legal 00); thorough: 43 kinds '
                '(13 NUMBER forms incl. near-misses, 8 STRING/bytes forms, True/False/None/x, = . *)'),
@@ -172,18 +408,107 @@ HARNESSES = {
         fn='c02_tokens',
         anchors=['gin.config_parser:_maybe_parse_container'],
         smoke=[_smoke(1, 1, 6, 5, 6, 2, 2, n=7, voc=2), _smoke(7, 3, 4, 9, 10, 5, 8, n=7, voc=3)],
-        tiers={'quick': dict(split=dict(k0=list(range(7)), k1=list(range(7))),
-                             fixed=dict(n=7, voc=2, nk=7, k7=0), budget_s=100),
+        # (quick: first token ( or [ - every other first token is in c02_deep_rest; the four partitions
+        # (|[ x (|[ of the former k0 x k1 split held ~860 paths each and ran out of budget on a loaded machine)
+        tiers={'quick': dict(split=dict(k0=[1, 3], k1=list(range(7)), k2=list(range(7))),
+                             fixed=dict(n=7, voc=2, nk=7, pos=0, **_zeros(7)), budget_s=100),
                'thorough': dict(split=dict(k0=list(range(11)), k1=list(range(11)), k2=list(range(11))),
-                                fixed=dict(n=8, voc=3, nk=11), budget_s=900)},
+                                fixed=dict(n=8, voc=3, nk=11, pos=0, k8=0), budget_s=900)},
         bounds='value = at most 7 tokens over a 7-kind structural vocabulary (( ) [ ] , 1 END) (quick) / 8 tokens '
                'over 11 kinds (+ { } : \'a\') (thorough): nesting up to depth 3 with several items'),
+    'c02_deep_rest': dict(
+        fn='c02_tokens',
+        anchors=['gin.config_parser:parse_value'],
+        smoke=[_smoke(6, n=7, voc=2), _smoke(5, 6, n=7, voc=2), _smoke(2, n=7, voc=2)],
+        tiers={'quick': dict(split=dict(k0=[0, 2, 4, 5, 6]), fixed=dict(n=7, voc=2, nk=7, pos=0, **_zeros(7)),
+                             budget_s=100)},
+        bounds='the remaining first tokens of the quick tier of c02_deep (END ) ] , 1); the thorough tier of c02_deep '
+               'covers every first token itself'),
 }
+HARNESSES.update(_pair(
+    'c02_other', I_X, 5, I_XT, 5,
+    smoke=[_sm(I_X, '- @ y', n=5), _sm(I_X, '- % y', n=5), _sm(I_X, '[ - @ y ]', n=5), _sm(I_X, '@ y ( )', n=5),
+           _sm(I_X, '% y ENDC', n=5), _sm(I_X, '( @ y , )', n=5), _sm(I_X, '[ 1 @ y', n=5), _sm(I_X, '1 % y', n=5),
+           _sm(I_X, '@ y 1', n=5), _sm(I_X, '@ 1', n=5), _sm(I_X, '1 $', n=5), _sm(I_X, '[ 1 $ ]', n=5),
+           _sm(I_X, '- $', n=5), _sm(I_X, '1 ERR$', n=5), _sm(I_X, '[ 1 ERR$ ]', n=5), _sm(I_X, 'ERR$ 1', n=5),
+           _sm(I_X, "1 'abc", n=5), _sm(I_X, '[ 1 , 0xG', n=5), _sm(I_X, "- 'abc", n=5),
+           _sm(I_XT, '{ @ y : 1 }', n=6), _sm(I_XT, '[ @ y ( NL ) ]', n=6), _sm(I_XT, "{ - % y", n=6)],
+    bounds='value = at most 5 tokens over 16 kinds (quick) / 21 kinds (thorough): - @ % NAME(y, a registered '
+           'configurable) ( ) [ ] , 1, the non-token character $ as OP (Python 3.12) and as ERRORTOKEN \' \'+ERRORTOKEN '
+           '(tokenizer contract of Python <= 3.11), text on which the tokenizer raises (unterminated string, 0xG), '
+           'END, END-with-comment; thorough adds { } : \'a\' NL'))
+HARNESSES.update(_pair(
+    'c02_neg', I_N, 6, I_N, 7,
+    smoke=[_sm(I_N, '[ 1 , - 1 ]', n=6), _sm(I_N, '{ - 1 : 1 }', n=6), _sm(I_N, '{ 1 : - 1 }', n=6),
+           _sm(I_N, '[ - 1 , ]', n=6), _sm(I_N, '[ - , 1 ]', n=6), _sm(I_N, '[ 1 - 1 ]', n=6), _sm(I_N, '- 1', n=6),
+           _sm(I_N, '{ - 1 : - 1 }', n=7)],
+    bounds='negative numbers inside containers and as dict keys / values: value = at most 6 (quick) / 7 (thorough) tokens '
+           'over [ ] { } : , - 1 END'))
+HARNESSES.update(_pair(
+    'c02_breaks', I_L, 5, I_LT, 6,
+    smoke=[_sm(I_L, '[ - NL 1 ]', n=5), _sm(I_L, "[ 'a' NL 'a' ]", n=5), _sm(I_L, "[ 'a' COMMENT 'a' ]", n=5),
+           _sm(I_L, '[ 1 , NL ]', n=5), _sm(I_L, '[ 1 COMMENT ]', n=5), _sm(I_L, '[ NL - 1 ]', n=5),
+           _sm(I_L, "[ - COMMENT 'a' ]", n=5), _sm(I_L, "- 1", n=5), _sm(I_LT, '[ 1 NL , NL ]', n=6),
+           _sm(I_LT, '( 1 , NL )', n=6), _sm(I_LT, '( - COMMENT 1 )', n=6), _sm(I_LT, '( - 1 , )', n=6)],
+    bounds='line breaks and comments between the pieces of one scalar (after the minus, between adjacent strings) and '
+           'around separators, inside brackets, on accepting paths: value = at most 5 tokens over [ ] , - 1 \'a\' NL '
+           'COMMENT END (quick) / 6 tokens, also ( ) (thorough)'))
+HARNESSES.update(_pair(
+    'c02_numeric', I_Z, 4, I_Z, 5,
+    smoke=[_sm(I_Z, '- 0.0', n=4), _sm(I_Z, '- 0j', n=4), _sm(I_Z, '- 1e400', n=4), _sm(I_Z, '1e400', n=4),
+           _sm(I_Z, '0.0', n=4), _sm(I_Z, '( - 0.0 , )', n=4), _sm(I_Z, '( - 0j )', n=4), _sm(I_Z, '09.5', n=4),
+           _sm(I_Z, '00e1', n=4), _sm(I_Z, '- 09j', n=4), _sm(I_Z, '09', n=4), _sm(I_Z, '- 0', n=4), _sm(I_Z, '+ 0.0', n=4)],
+    anchors=('gin.config_parser:_maybe_parse_basic_type',),
+    bounds='numerics compared by repr (sign of zero, inf): value = at most 4 (quick) / 5 (thorough) tokens over - + ( ) , '
+           'and the NUMBER tokens 0.0 0j 1e400 0 09.5 00e1 09j (legal leading zeros) 09 (not Python)'))
+HARNESSES['c02_positions'] = dict(
+    fn='c02_tokens',
+    anchors=_A_ALL + ['gin.config_parser:_parse_binding_block'],
+    smoke=[_smoke(2, 12, 3, n=3, voc=0, pos=1), _smoke(10, 12, 1, n=3, voc=0, pos=1), _smoke(12, 12, n=3, voc=0, pos=1),
+           _smoke(2, 12, 0, n=3, voc=0, pos=1), _smoke(4, 17, 5, n=3, voc=0, pos=1), _smoke(16, n=3, voc=0, pos=1),
+           _smoke(2, 12, 3, n=3, voc=0, pos=2), _smoke(10, 12, 1, n=3, voc=0, pos=2), _smoke(13, 14, n=3, voc=0, pos=2),
+           _smoke(16, n=3, voc=0, pos=2), _smoke(6, 7, 12, n=3, voc=0, pos=2)],
+    tiers={'quick': dict(split=dict(pos=[1, 2], k0=list(range(21))),
+                         fixed=dict(n=3, voc=0, nk=21, **_zeros(3)), budget_s=100),
+           'thorough': dict(split=dict(pos=[1, 2], k0=list(range(21)), k1=list(range(21))),
+                            fixed=dict(n=4, voc=0, nk=21, **_zeros(4)), budget_s=900)},
+    bounds='the value as member of a block (vw.lit:\\n  p = <value>, ended by NEWLINE DEDENT) and as a macro definition '
+           '(m = <value>): at most 3 (quick) / 4 (thorough) tokens over the 21-kind vocabulary of c02_tokens')
+_D = dict(k0=1, k2=3, k4=4, k6=3, k8=2)     # { . : . , . : . }
+HARNESSES['c02_dupkeys'] = dict(
+    fn='c02_tokens',
+    anchors=['gin.config_parser:_parse_dict_item'],
+    smoke=[_sm(I_D, "{ 1 : 1 , 1 : 'a' }"), _sm(I_D, "{ 1 : 'a' , True : 1 }"), _sm(I_D, "{ 1.0 : 'a' , True : 1 }"),
+           _sm(I_D, "{ True : 1 , 1 : 'a' }"), _sm(I_D, "{ 'a' : 1 , 'a' : True }"), _sm(I_D, "{ 1 : { , 1 : 1 }")],
+    tiers={'quick': dict(split=dict(k1=list(range(9))), fixed=dict(n=9, voc=I_D, nk=9, pos=0, **_D), budget_s=100),
+           'thorough': dict(split=dict(k1=list(range(9)), pos=[0, 1, 2]), fixed=dict(n=9, voc=I_D, nk=9, **_D),
+                            budget_s=300)},
+    bounds='two-item dicts { k : v , k : v } (9 tokens, punctuation fixed) with keys and values over 1 \'a\' True 1.0 '
+           '(and the punctuation kinds as near-misses): repeated keys, equal keys of different type (1 / True / 1.0)')
+HARNESSES['c02_breaks_dict'] = dict(
+    fn='c02_tokens',
+    anchors=['gin.config_parser:_parse_dict_item', 'gin.config_parser:_skip_whitespace_and_comments'],
+    smoke=[_sm(I_LD, "{ 'a' NL : 1 }", n=6), _sm(I_LD, '{ 1 : COMMENT 1 }', n=6), _sm(I_LD, '{ - NL 1 : 1', n=6),
+           _sm(I_LD, "{ NL 1 : 'a' }", n=6), _sm(I_LD, '{ 1 NL 1 : 1 }', n=6), _sm(I_LD, "{ 1 : 'a' NL }", n=6)],
+    tiers={'quick': dict(split=dict(k1=list(range(10))), fixed=dict(n=6, voc=I_LD, nk=10, pos=0, k0=1, k5=2, **_zeros(6)),
+                         budget_s=100),
+           'thorough': dict(split=dict(k1=list(range(10)), k2=list(range(10))),
+                            fixed=dict(n=6, voc=I_LD, nk=10, pos=0, k0=1, **_zeros(6)), budget_s=300)},
+    bounds='line breaks and comments inside a dict (before / after the colon, after the minus of a key): first token {, '
+           'at most 6 tokens over { } : , - 1 \'a\' NL COMMENT END; quick: the sixth token is fixed to }')
 RULE = ('one case per parser-distinguishable token sequence (tokens are chosen lazily when the parser pulls '
         'them); non-trivial: the grammar accepts it or at least two value tokens were consumed')
 SOLVER_ROLE = 'decides control: the path tree over lazily chosen token kinds is exhausted (CONFIRMED); every leaf is concrete'
 OUTSIDE = ('character-level lexing and the value of a single NUMBER/STRING token are CPython\'s (tokenize, '
            'ast.literal_eval), reached only through the vocabulary representatives; values longer than N tokens; '
-           'references and macros (@, %) as values are not literals (C03/C04/C05)')
+           'references and macros (@, %) as values are not literals: whether and as what they are accepted is left to '
+           'C03/C04/C05, here they only serve as near-misses (a stream containing them may be rejected; if accepted it '
+           'must be a sentence of the literal grammar extended by @name, @name(), %name with all literal parts equal to '
+           'Python\'s); multi-line STRING tokens, f-strings, the include operand, gin.parse_value (no statement, no '
+           'end-of-statement check) and input carriers other than one str')
 ASSUMPTIONS = ['tokenizer replaced by a contract-checked stub (vf/tokseam.py); each finished path is re-tokenised '
-               'by the real tokenizer and re-parsed by the real tokenizer-driven parser, and must agree']
+               'by the real tokenizer and re-parsed by the real tokenizer-driven parser, and must agree',
+               'the ERR kind of c02_other follows the token contract of the pure-Python tokenizer of Python <= 3.11 '
+               '(ERRORTOKEN for a blank before a non-token character, ERRORTOKEN for the character), which the 3.12 '
+               'tokenizer of this sandbox no longer produces (it reports OP): those paths are checked against the real '
+               'tokenizer modulo that mapping and are not re-parsed through it']
